@@ -86,3 +86,10 @@ claim("C09", "ClientTree.tla states the placement rules (destination/source-name
       "sizes x MLSD and LIST-fallback servers are run through the real Client.upload/download/list/remove against the real server and "
       "TLC compares the resulting trees including contents.", "TLC judgement of recorded client tree operations against ClientTree.tla",
       note="Trusted base: TLC; client side on MemoryPathIO; destinations containing '..' are outside the stated family.")
+claim("C08", "Names.tla treats a name as an opaque token and states what each step of a 14-step tour (create, enter, PWD, leave, list, "
+      "stat, exists, upload, download, append, rename there and back, delete) must return. All sequences of <= 2 (quick) / 3 (thorough) "
+      "character classes out of 18 hostile classes, at nesting depth 1..3 and also as file names, go through the real client methods "
+      "against the real server; TLC compares every returned value and the backend tree, and FtpCore validates the wire trace of each tour.",
+      "TLC judgement of recorded name tours (Names.tla) + FtpCore trace validation",
+      note="Trusted base: TLC; names needing a trailing blank, lone surrogates and names longer than 200 bytes are outside the family; "
+           "the LIST-fallback spelling of names is C07's subject.")
